@@ -150,6 +150,21 @@ Theorem C11_periodic_min_image : forall x y (k : Z), 0 <= x -> x < 1 -> 0 <= y -
   mt_wrap (x - y) * mt_wrap (x - y) <= (x - y + inject_Z k) * (x - y + inject_Z k).
 Proof. exact mt_wrap_sq_min_image. Qed.
 Print Assumptions C11_periodic_min_image.
+(* ...and the minimum is attained: the coded periodic distance of two points of the unit cell EQUALS the plain distance
+   to one of the nine nearest integer translates, and is a lower bound of the distance to every translate; hence it is
+   the distance on the torus.  Consequence: never more than half the cell diagonal. *)
+Theorem C11_periodic_le_every_image : forall a b (k1 k2 : Z), mt_in_unit a -> mt_in_unit b ->
+  mt_periodic_sq a b <= mt_euclid_sq a (mt_shift b k1 k2).
+Proof. exact mt_periodic_le_image. Qed.
+Print Assumptions C11_periodic_le_every_image.
+Theorem C11_periodic_image_attained : forall a b, mt_in_unit a -> mt_in_unit b ->
+  exists k1 k2 : Z, (-1 <= k1 <= 1)%Z /\ (-1 <= k2 <= 1)%Z /\
+    mt_periodic_sq a b == mt_euclid_sq a (mt_shift b k1 k2).
+Proof. exact mt_periodic_image_attained. Qed.
+Print Assumptions C11_periodic_image_attained.
+Theorem C11_periodic_le_half : forall a b, mt_in_unit a -> mt_in_unit b -> mt_periodic_sq a b <= 1 # 2.
+Proof. exact mt_periodic_le_half. Qed.
+Print Assumptions C11_periodic_le_half.
 
 (* ---- clause "always found when the iteration budget is at least the number of edges (the budget the flux solver uses)"
    (astar_budget), BOTH stopping modes, for the loop after fix 475bcae (maxits bounds the number of expanded nodes; popping
